@@ -189,7 +189,7 @@ class Tensor(object):
                     and data[n].shape[-1] != data[n + 1].shape[d2]
                 ):
                     raise ValueError("Core ranks do not match")
-            self.cores = data
+            self.cores = list(data)
             N = len(data)
         else:
             if isinstance(data, np.ndarray):
@@ -203,7 +203,7 @@ class Tensor(object):
             N = data.dim()
         if Us is None:
             Us = [None] * N
-        self.Us = Us
+        self.Us = list(Us)
         if isinstance(data, torch.Tensor):
             if data.dim() == 0:
                 data = data * torch.ones(1, device=device, dtype=data.dtype)
